@@ -489,12 +489,18 @@ func (t *tr2) methodCall(x *ast.CallExpr) (call, key string, ok bool, err error)
 		if !isId {
 			return "", "", true, fmt.Errorf("%s: method call on a struct expression", t.p.Pos(x))
 		}
-		for _, i := range t.fieldsUsed(key, map[string]bool{}) {
+		fields := t.fieldsUsed(key, map[string]bool{})
+		for _, i := range fields {
 			v, have := t.env[id.Name+"."+st.Field(i).Name()]
 			if !have {
 				return "", "", true, fmt.Errorf("%s: field %s of %s is not a parameter here", t.p.Pos(x), st.Field(i).Name(), id.Name)
 			}
 			args = append(args, v)
+		}
+		if len(fields) == 0 {
+			// a method that reads no field of its struct receiver keeps one dummy parameter
+			// (the convention of expr.go, e.g. Bounds_ObjectID (a_b : Z))
+			args = append(args, "0")
 		}
 	} else {
 		recv, err := t.expr(sel.X)
@@ -938,6 +944,9 @@ func TranslateFunc2(p *Pkg, decls map[string]*ast.FuncDecl, key string, fd *ast.
 	var notes []string
 	addParam := func(name string, ty types.Type, pos ast.Node, fields []int) error {
 		if st := structOf(ty); st != nil {
+			if len(fields) == 0 {
+				params = append(params, fmt.Sprintf("(a_%s : Z)", name))
+			}
 			for _, i := range fields {
 				f := st.Field(i)
 				cty, ok := t.scalarType(f.Type())
